@@ -233,8 +233,16 @@ def gen(seed, run, tier='quick'):
                 c = rng.randrange(n_mc)
             toks.append(['rem', c])
         elif k == 'regtmp':
-            toks.append(['regtmp', rng.randrange(n_mc)])
+            # (with its own rates: those of the spec times 1, 9/8, 5/4 ...;
+            # 5: without any rate, never fed)
+            toks.append(['regtmp', rng.randrange(n_mc), rng.randrange(6)])
             mstack.append(1000)
+            for _ in range(rng.choice([0, 0, 1, 3])):
+                # ... replaced at once by the next short-lived converter
+                # (block after block with today's rates): the old one is
+                # freed, the new one is likely to get its memory
+                toks.append(['swaptmp', rng.randrange(n_mc),
+                             rng.randrange(6)])
         elif k == 'remtop':
             toks.append(['remtop'])
             if mstack:
@@ -368,7 +376,7 @@ def execute(h):
     n_cur = len(curs)
     clock_fault = {}    # id of spec -> fault mode armed for the next read
 
-    def build_mconv(spec):
+    def build_mconv(spec, scale=1):
         base = curs[spec['base'] % n_cur]
         kind = spec.get('kind', 'none')
         if kind == 'none':
@@ -389,10 +397,17 @@ def execute(h):
             mc = MoneyConverter(base, get_dflt_effective_date=dflt_date)
             validity = {'day': datetime.date(2024, 2, 29),
                         'month': (2024, 2), 'year': 2024}[kind]
-        rates = [(curs[int(j) % n_cur], Decimal(_frac(r).numerator) /
-                  Decimal(_frac(r).denominator), 1)
+        def scaled(j, r):
+            # every currency by a factor of its own, so that cross rates
+            # change with `scale`, too
+            from fractions import Fraction
+            f = _frac(r) * (1 if scale == 1 else
+                            Fraction(8 + (int(scale * 8) * (int(j) + 1)) % 7,
+                                     8))
+            return Decimal(f.numerator) / Decimal(f.denominator)
+        rates = [(curs[int(j) % n_cur], scaled(j, r), 1)
                  for j, r in sorted(spec['rates'].items())
-                 if curs[int(j) % n_cur] is not base]
+                 if curs[int(j) % n_cur] is not base] if scale else []
         if rates:
             mc.update(validity, rates)
         return mc
@@ -605,7 +620,8 @@ def execute(h):
     def expected_money(p):
         if not mstack:
             return ('exc', 'UnitConversionError')
-        return answers[mstack[-1] % 1000][p]
+        top = mstack[-1]
+        return (temp_answers[top - 1000] if top >= 1000 else answers[top])[p]
 
     def conv_exp(e):
         return e[:2]
@@ -924,14 +940,28 @@ def execute(h):
                     violate('money_remove', 'non_top_accepted', i, conv=c,
                             model_stack=list(mstack))
             after(i, o[0])
-        elif op == 'regtmp':
+        elif op in ('regtmp', 'swaptmp'):
             # a converter built on the spot, registered directly and not
             # kept by the caller: the registry is its only referrer
+            if op == 'swaptmp' and mstack and mstack[-1] >= 1000:
+                Money.remove_converter(
+                    next(iter(Money.registered_converters())))
+                mstack.pop()
+                bump(probes, 'short_lived_converter_replaced_at_once')
             c = t[1] % len(mconvs)
-            Money.register_converter(build_mconv(cfg['mconvs'][c]))
+            k_ = t[2] if len(t) > 2 else 0
+            from fractions import Fraction
+            scale = 0 if k_ == 5 else Fraction(8 + k_, 8)
             import gc
             gc.collect()
-            mstack.append(1000 + c)
+            Money.register_converter(build_mconv(cfg['mconvs'][c], scale))
+            # what it has to answer is asked of a twin that stays alive
+            # (the registered one may be freed and its address used again)
+            twin = build_mconv(cfg['mconvs'][c], scale)
+            twins.append(twin)
+            temp_answers.append({p: safely(direct, twin, *p)
+                                 for p in pairs})
+            mstack.append(1000 + len(temp_answers) - 1)
             bump(probes, 'converter_referenced_by_registry_only')
             after(i, 'ok')
         elif op == 'remtop':
@@ -1091,6 +1121,7 @@ def execute(h):
 
     next_in_thread = [False]
     other_types = []
+    twins, temp_answers = [], []
 
     def in_thread(i, fn):
         """Run fn in a fresh thread while this one waits.  A call that
@@ -1255,7 +1286,7 @@ def _sym(t):
     op = t[0]
     if op in ('enter', 'reg', 'rem'):
         return {'enter': 'E', 'reg': 'R', 'rem': 'X'}[op] + str(t[1] % 3)
-    if op == 'regtmp':
+    if op in ('regtmp', 'swaptmp'):
         return 'T' + str(t[1] % 3)
     if op == 'remtop':
         return 'P.'
